@@ -109,10 +109,22 @@ func main() {
 	// MuxBrokers on them (written into the rewritten copy only)
 	os.WriteFile(filepath.Join(out, "zz_sim_export.go"), []byte(`package plugin
 
-import "github.com/hashicorp/yamux"
+import (
+	"net"
+
+	"github.com/hashicorp/yamux"
+	"simworld/goplugin/internal/cmdrunner"
+	"simworld/goplugin/runner"
+)
 
 // NewMuxBrokerForSim is newMuxBroker, for the simulator's harness.
 func NewMuxBrokerForSim(s *yamux.Session) *MuxBroker { return newMuxBroker(s) }
+
+// ReattachFuncForSim is cmdrunner.ReattachFunc (an internal package the
+// harness cannot import): the value a host keeps and uses more than once.
+func ReattachFuncForSim(pid int, addr net.Addr) runner.ReattachFunc {
+	return cmdrunner.ReattachFunc(pid, addr)
+}
 `), 0o644)
 	b, _ := json.MarshalIndent(sites, "", " ")
 	os.WriteFile(filepath.Join(out, "sites.json"), b, 0o644)
